@@ -389,6 +389,10 @@ class CTree:
         kids = [self.tree(x, depth) if isinstance(x, tuple) else x for x in t[1:]]
         if h == 'bin' and len(kids) == 3:
             op, a, b = kids
+            if self.consts and isinstance(a, tuple) and isinstance(b, tuple) and a[0] == 'int' and b[0] == 'int' and op in ('Add', 'Sub', 'Mul') and isinstance(a[1], int) and isinstance(b[1], int):
+                r = a[1] + b[1] if op == 'Add' else a[1] - b[1] if op == 'Sub' else a[1] * b[1]
+                if 0 <= r < 2 ** 63:
+                    return ('int', r)
             if op in FLIP:
                 op, a, b = FLIP[op], b, a
             if op in COMMUTE and show(a) > show(b):
